@@ -28,7 +28,7 @@ written from the text of property C05 and the protocol comments ("CMD <VERB> [ar
   FAKE_CI <delta>           0, base += delta
   FAKE_DROP <n>             −1 if n < 0; else 0, drop n bursts, period 1
   FAKE_DROP <n> <period>    −1 if n < 0 or period ≤ 0; else 0, stored
-  FAKE_TRXC_DELAY <ms>      0, response delay stored
+  FAKE_TRXC_DELAY <ms>      −1 if ms < 0 or ms > 60000 (one minute; no effect); else 0, response delay stored
   anything else             0, no effect  ("unknown verbs acknowledged with 0")
 
 All arguments are decimal integers.  No Mathlib; independent of the code models.
@@ -150,7 +150,8 @@ def table : List Row := [
     if n < 0 then ⟨-1, .none⟩ else ⟨0, .drop n 1⟩⟩,
   ⟨"FAKE_DROP", 2, false, fun _ => arg2 fun n period =>
     if n < 0 ∨ period ≤ 0 then ⟨-1, .none⟩ else ⟨0, .drop n period⟩⟩,
-  ⟨"FAKE_TRXC_DELAY", 1, false, fun _ => arg1 fun ms => ⟨0, .delay ms⟩⟩
+  ⟨"FAKE_TRXC_DELAY", 1, false, fun _ => arg1 fun ms =>
+    if ms < 0 ∨ ms > 60000 then ⟨-1, .none⟩ else ⟨0, .delay ms⟩⟩
 ]
 
 /-- (verb, argc, va) of every row -/
